@@ -280,7 +280,7 @@ func domainFor(c *contractDef, m *abi.Method, ai int, env *stateEnv, actorIdx in
 			return []val{v("ok", genesisT+365*day), v("0", int64(0)), v("max", int64(math.MaxInt64)), v("past", genesisT+1), v("-1", int64(-1)), v("1", int64(1))}
 		}
 		return []val{v("ok", constants.StakeTimeMinSec), v("0", int64(0)), v("max", int64(math.MaxInt64)), v("maxvalid", constants.StakeTimeMaxSec), v("-1", int64(-1)),
-			v("1", int64(1)), v("not-multiple", constants.StakeTimeMinSec+day), v("min", int64(math.MinInt64))}
+			v("1", int64(1)), v("not-multiple", constants.StakeTimeMinSec+60), v("min", int64(math.MinInt64))}
 	case "uint256":
 		switch name {
 		case "znnFundsNeeded":
